@@ -921,6 +921,38 @@ Section Calls2.
     eexists. split; [reflexivity|]. repeat split; auto; [rewrite Q2 | rewrite Q3]; auto.
   Qed.
 
+  (* parseFuncCall as the call statement uses it (isTopLevel = true): arguments are parsed whether or
+     not the function is niladic *)
+  Lemma func_call_stmt f fuel niladic name args trees st rest0 outer :
+    arity_wrong E name (List.length args) = false ->
+    Forall2 (fun a t => RT E true a t /\ head_ok a) args trees ->
+    rest st = ident_tok name :: more_args args ++ rest0 ->
+    wss st = false :: outer ->
+    list_end (look0 rest0) ->
+    (forall a, In a args -> 2 * List.length a <= f) ->
+    List.length args < fuel ->
+    exists st', parse_func_call E (parse_expr E f) fuel true niladic st = Some (Some (TCall name trees), st') /\ same3 st st' rest0.
+  Proof.
+    intros Har HF Hr Hw Hend Hf Hfuel.
+    unfold parse_func_call. cbn [orb]. unfold cur. rewrite Hr. cbn [look0 hd tlit ident_tok].
+    assert (Hlen : List.length trees = List.length args) by (symmetry; eapply Forall2_len; eauto).
+    assert (Wf : is_wss st = false) by (unfold is_wss; rewrite Hw; reflexivity).
+    assert (Hadv : rest (advance st) = (match args with [] => [] | a :: r => a ++ more_args r end) ++ rest0
+                   /\ wss (advance st) = wss st /\ errs (advance st) = errs st).
+    { destruct args as [|a r].
+      - cbn [more_args flat_map app] in Hr |- *. apply (advance_exact st _ rest0 Hr). right.
+        unfold list_end in Hend. unfold is_ws. destruct (ttype (look0 rest0)); try contradiction; reflexivity.
+      - inversion HF as [|? ? ? ? [_ Hh] _]; subst. cbn [more_args flat_map] in Hr. fold (more_args r) in Hr.
+        destruct a as [|t0 a']; [contradiction|].
+        apply (advance_skip_ws st (ident_tok name)); [exact Wf | |].
+        + rewrite Hr. cbn [app]. rewrite <- !app_assoc. reflexivity.
+        + cbn [app look0 hd]. cbn [head_ok] in Hh. unfold wsish. destruct (ttype t0); try contradiction; reflexivity. }
+    destruct Hadv as (A1 & A2 & A3).
+    destruct (expr_list_loop E f args trees [] (advance st) rest0 fuel outer HF A1) as (st' & P & Q1 & Q2 & Q3); auto; try (rewrite A2; exact Hw).
+    rewrite P. cbn [rev app]. rewrite Hlen, Har. unfold tyerr. rewrite NT.
+    eexists. split; [reflexivity|]. repeat split; auto; [rewrite Q2 | rewrite Q3]; auto.
+  Qed.
+
   (* "(" name arg ... ")" as a whole expression *)
   Theorem group_call_rt w name args trees :
     func_of E name = Some false ->
